@@ -31,6 +31,10 @@ partial def evOf : Sexp → Option E
   | .list [.atom "tailCall", id, e] => do
     let id ← id.asInt?; let e ← evOf e
     pure (tailCall (fun _ => .logged [s!"t{id}"] e))
+  | .list (.atom "tailCallN" :: id :: xs) => do
+    let id ← id.asInt?; let xs ← xs.mapM Sexp.asInt?
+    let t := (xs.zipIdx.map (fun (x, i) => ((i : Int) + 1) * x)).foldl (· + ·) 0
+    pure (tailCall (fun _ => .logged [s!"t{id}:{",".intercalate (xs.map toString)}"] (done t)))
   | .list [.atom "tailCall2", id, x, y] => do
     let id ← id.asInt?; let x ← x.asInt?; let y ← y.asInt?
     pure (tailCall (fun _ => .logged [s!"t{id}:{x},{y}"] (done (x - y))))
